@@ -15,7 +15,8 @@ from vf import hist
 ID = "C01"
 LEVEL = "exploration"
 SHARDS = {"quick": 8, "thorough": 16}
-RULE = ("cases = (decimal_places 0..9, line ending, list of <=25 ops: "
+RULE = ("cases = (decimal_places 0..9, line ending, axis labels (default, relabelled, "
+        "X/Y swapped), list of <=25 ops: "
         "move/rapid/move_absolute/rapid_absolute with any subset of x/y/z as "
         "kwargs, list or Point; set_axis; auto_home; probe (4 modes); "
         "set_distance_mode; nested absolute_mode()/relative_mode() contexts "
@@ -128,7 +129,7 @@ def classify(ops):
 
 def run_case(case, classes=None):
     classes = set() if classes is None else classes
-    s = Session(dp=case["dp"], eol=case["eol"])
+    s = Session(dp=case["dp"], eol=case["eol"], labels=case.get("labels"))
     check = make_checker(s, classes)
     hist.run_ops(s.g, case["ops"], check)
     return classes
@@ -143,6 +144,8 @@ def strategy(max_ops):
     return st.fixed_dictionaries({
         "dp": st.integers(0, 9),
         "eol": st.sampled_from(["lf", "crlf"]),
+        "labels": st.sampled_from([None, None, None, {"X": "A", "Y": "B", "Z": "C"},
+                                   {"X": "Y", "Y": "X"}, {"Z": "W"}]),
         "ops": st.tuples(
             st.sampled_from([[], [], [{"op": "set_distance_mode", "mode": "relative"}]]),
             st.lists(hist.motion_op_strategy(), min_size=1, max_size=max_ops)
